@@ -25,7 +25,11 @@ func (g *Gen) bopts() ([]z.TestOption, string) {
 	g.opts(&t)
 	g.P.POpts = saved
 	g.P.PIssuePath = 0
-	return testOpts(&t), fmt.Sprintf("{| o_msg := %s; o_code := %s; o_path := %s |}", CoqOptStr(t.OptMsg), CoqOptStr(t.OptCode), CoqOptStr(t.OptPath))
+	ps := "None"
+	if t.OptParams != nil {
+		ps = "(Some " + coqParams(t.OptParams) + ")"
+	}
+	return testOpts(&t), fmt.Sprintf("{| o_msg := %s; o_code := %s; o_path := %s; o_params := %s |}", CoqOptStr(t.OptMsg), CoqOptStr(t.OptCode), CoqOptStr(t.OptPath), ps)
 }
 
 // NewBuilderCase: a random chain of builder calls on a String, Int, Int64, Float64, Bool or Time schema
@@ -87,7 +91,7 @@ func NewBuilderCase(g *Gen, id int) *Case {
 				}
 				o, co := g.bopts()
 				if node.Kind == KBool { // True() / False() / EQ() take no options
-					o, co = nil, "{| o_msg := None; o_code := None; o_path := None |}"
+					o, co = nil, "{| o_msg := None; o_code := None; o_path := None; o_params := None |}"
 				}
 				code, params, b := builtin(node, &t)
 				calls = append(calls, fmt.Sprintf("CBuiltin %s %s %s %s", CoqStr(code), coqParams(params), b, co))
@@ -143,11 +147,11 @@ func NewBuilderCase(g *Gen, id int) *Case {
 			o, co := g.bopts()
 			switch forcedOpts {
 			case 0:
-				o, co = nil, "{| o_msg := None; o_code := None; o_path := None |}"
+				o, co = nil, "{| o_msg := None; o_code := None; o_path := None; o_params := None |}"
 			case 1:
 				m, cd := fmt.Sprintf("msg%d", r.Intn(1000)), fmt.Sprintf("code%d", r.Intn(1000))
 				t := TestSpec{OptMsg: &m, OptCode: &cd}
-				o, co = testOpts(&t), fmt.Sprintf("{| o_msg := %s; o_code := %s; o_path := None |}", CoqOptStr(t.OptMsg), CoqOptStr(t.OptCode))
+				o, co = testOpts(&t), fmt.Sprintf("{| o_msg := %s; o_code := %s; o_path := None; o_params := None |}", CoqOptStr(t.OptMsg), CoqOptStr(t.OptCode))
 			}
 			calls = append(calls, "CRequired "+co)
 			apply = append(apply, func(s *z.StringSchema[string]) { s.Required(o...) })
